@@ -30,9 +30,9 @@ def ops(level, text, ref, technique):
 
 
 CHECKS = {
-    "C05": ops("model_checking", "TLC checks WitnessOps (refinement of the atomic witness: CommitIsAtomicAccept, NoRegress, Linearizable, ErrOnlyOnConflict) for the scenario menu on both stores, LISTS every interleaving at storage-call granularity for 2 and 3 processes (samples for 4), a gate scheduler forces each schedule on the real witness over the real stores, and TLC (Trace_Lin, silent linearization steps) judges every recorded invocation/response history; plus free-running goroutines under the race detector.", "DESIGN.md section 5 C05",
+    "C05": ops("model_checking", "TLC checks WitnessOps (refinement of the atomic witness: CommitIsAtomicAccept, NoRegress, Linearizable, ErrOnlyOnConflict) for the scenario menu on both stores, LISTS every interleaving at storage-call granularity for 2 and 3 processes (samples for 4), a gate scheduler forces each schedule on the real witness over the real stores, and TLC (Trace_Lin, silent linearization steps) judges every recorded invocation/response history; plus free-running goroutines under the race detector.", "DESIGN.md section 5 C05 The production binary (cmd/omniwitness as built from the tree, SQLite file, single connection as main() configures it) serves concurrent clients over the bastion connection it dials and its read API; those histories are judged by Trace_Lin too. The SqlN variant of WitnessOps (pool of connections) documents what SetMaxOpenConns(1) buys: TLC refutes ErrOnlyOnConflict for it and nothing else.",
                "TLC model checking of WitnessOps.tla + forced replay of every TLC-listed schedule + TLC linearizability trace validation"),
-    "C06": ops("fault_enumeration", "Every real driver-operation boundary (before/after begin, query, exec, commit, rollback) of the update histories is a SIGKILL point of a child process on file-backed SQLite, plus random-instant kills; a fresh process reopens and probes; TLC (Trace_Crash) judges old-or-new, acknowledged-in-force, completeness; WitnessOps with the Crash action is model-checked for the same histories.", "DESIGN.md section 5 C06",
+    "C06": ops("fault_enumeration", "Every real driver-operation boundary (before/after begin, query, exec, commit, rollback) of the update histories is a SIGKILL point of a child process on file-backed SQLite, plus random-instant kills; a fresh process reopens and probes; TLC (Trace_Crash) judges old-or-new, acknowledged-in-force, completeness; WitnessOps with the Crash action is model-checked for the same histories.", "DESIGN.md section 5 C06 The production binary (cmd/omniwitness --db_file) serves the same histories over a stub bastion, is SIGKILLed at random instants, restarted on the same file, read through its read API and probed; judged by the same monitors.",
                "TLC model checking of WitnessOps.tla with Crash + SIGKILL at every driver-operation boundary + TLC trace validation"),
     "C07": ops("fault_enumeration", "TLC lists every placement of up to 1 (thorough: 2) storage failures over the calls of the update histories (WitnessOps fault actions); each is injected at interface level and at SQL-driver level on a single-connection SQLite store and followed by fault-free probes; TLC evaluates the C07 monitors (no false success, failed read is not first use, failure has no effect, no leaked transaction, carries on).", "DESIGN.md section 5 C07",
                "TLC model checking of WitnessOps.tla with fault actions + replay of every TLC-listed fault placement + TLC trace validation"),
@@ -45,7 +45,7 @@ CHECKS = {
     "C10": {"engine": "tlc", "level": "model_checking", "design_ref": "DESIGN.md section 5 C10",
             "text": "TLC checks Bastion.tla (status table, 200 only when accepted, 429 not processed, documented statuses) and emits every transition (every body class x every verdict class x every witness state reached through the endpoint); each is executed in process against the real handler wired to the real witness; TLC (Trace_Bastion) judges status, content type, body class, cosignature validity and state; rate limiter judged on monotonic-time bounds.",
             "note": SEQ_NOTE + " The in-process handler is built by an add-only overlay shim exactly as FeedBastion builds it.",
-            "technique": "TLC model checking of Bastion.tla + replay of every TLC-emitted transition through the real HTTP handler + TLC trace validation"},
+            "technique": "TLC model checking of Bastion.tla + replay of every TLC-emitted transition through the real HTTP handler (in process, through the exported FeedBastion over TLS 1.3 + HTTP/2, and through the production binary) + TLC trace validation"},
     "C11": {"engine": "tlc", "level": "model_checking", "design_ref": "DESIGN.md section 5 C11",
             "text": "TLC enumerates every sequence of line tokens up to length 4 (thorough 5) with the grammar's verdict (ParseBody, GrammarSane); each is rendered with seeded values and fed to the real parseBody; Proof.Marshal/Unmarshal for every length 0..64; bodies written by cmd/feedbastion's own writer; TLC (Trace_Body) judges exact read-back and refusal without partial data. Structure exhaustive, byte values sampled.",
             "note": "Trusted: TLC, the token renderer (what was written is remembered by the harness), seeded value sampling; the VALUE domain (0..2^64-1, hash bytes, checkpoint bytes) is sampled, not enumerated.",
@@ -58,7 +58,7 @@ CHECKS = {
     "C14": {"engine": "tlc", "level": "model_checking", "design_ref": "DESIGN.md section 5 C14",
             "text": "TLC checks OmniRun.tla (StaysOnHistory; liveness CatchesUp under weak fairness of polling, no state constraint) and lists every growth/fork/restart schedule; schedules run on the real omniwitness.Main (real HTTP, real sumdb and tlog-tiles feeders, 250 ms polling) against stub log servers over generated trees crossing 255/256/257 and 65535/65536/65537, on in-memory and SQLite storage with restarts; TLC (Trace_Omni) judges what is served after each event. The size-0 wedge is a recorded known finding.",
             "note": "Trusted: TLC; stub log servers (x/mod's reference sumdb server, a tlog-tiles server over the harness' RFC 6962 reference); convergence deadline 100 poll intervals; wall-clock only bounds waiting, never decides a verdict other than 'did not converge within 100 intervals'.",
-            "technique": "TLC model checking of OmniRun.tla (safety + liveness) + execution of TLC-listed schedules on the assembled service + TLC trace validation"},
+            "technique": "TLC model checking of OmniRun.tla (safety + liveness) + execution of TLC-listed schedules on the assembled service (omniwitness.Main in process, and the production binary with SIGKILL restarts) + TLC trace validation"},
     "C15": {"engine": "tlc", "level": "model_checking", "design_ref": "DESIGN.md section 5 C15",
             "text": "TLC checks Distributor.tla and enumerates every assignment of 8 witness answers x 6 distributor answers to 1..2 (thorough 1..3) logs plus sampled assignments for up to 6 logs; each is executed on the real DistributeOnce with a stub witness and a stub distributor; TLC (Trace_Dist) judges PUTs (only verified, identical bytes, path names id and witness), per-log accounting and the overall result.",
             "note": "Trusted: TLC; the stub witness answers are built by the harness' own note code; a 307 whose target answers 200 counts as delivered.",
